@@ -235,18 +235,32 @@ def library_defaults():
 
 
 def baseline():
+    """Result of every table edit with default options, each computed in its OWN fresh interpreter, so that nothing an earlier operation of this
+    process may have left behind (a mutated default argument, a module global) can be part of the baseline."""
+
     global _BASELINE
 
     if _BASELINE is None:
-        box = []
+        import ast as _ast
+        import os
+        import subprocess
+        from concurrent.futures import ThreadPoolExecutor
 
-        def work():
-            box.append([run_catch(lambda e=e: e({})) for e in EDITS])
+        verif = os.path.dirname(os.path.dirname(os.path.dirname(os.path.abspath(__file__))))
 
-        t = threading.Thread(target=work)
-        t.start()
-        t.join()
-        _BASELINE = box[0]
+        def one(i):
+            code = (f'import sys; sys.path.insert(0, {verif!r}); from pfstverif.checks import c20; '
+                    f'print("RESULT:" + repr(c20.run_catch(lambda: c20.EDITS[{i}]({{}}))))')
+            r = subprocess.run([sys.executable, '-c', code], capture_output=True, text=True, env=dict(os.environ, PYTHONHASHSEED='0'))
+            line = next((l for l in r.stdout.splitlines() if l.startswith('RESULT:')), None)
+
+            if line is None:
+                raise RuntimeError(f'baseline subprocess for edit {i} failed: {r.stderr[-500:]}')
+
+            return _ast.literal_eval(line[7:])
+
+        with ThreadPoolExecutor(8) as ex:
+            _BASELINE = list(ex.map(one, range(len(EDITS))))
 
     return _BASELINE
 
@@ -263,6 +277,11 @@ def enumerate_cases(tier, shard, nshards, seed):
 
             if k % nshards == shard:
                 yield {'kind': 'pair', 'a': a, 'b': b}
+
+
+def prepare(tier):
+    baseline()
+    library_defaults()
 
 
 def params(tier):
@@ -774,7 +793,7 @@ def execute_pair(case, ctx):
     for name, got, want in ((f'{ea.__name__} (first)', ra, base[case['a']]), (f'{eb.__name__} after {ea.__name__} (same thread)', rb, base[case['b']]),
                             (f'{eb.__name__} in a new thread after {ea.__name__} ran', box2[0], base[case['b']])):
         if got != want:
-            raise Violation('C20.call_leak', f'{name} with default options gives {got!r}, alone it gives {want!r}', f'call_leak:{ea.__name__}->{eb.__name__}')
+            raise Violation('C20.call_leak', f'{name} with default options gives {got!r}, alone it gives {want!r}', f'call_leak:{eb.__name__ if got is not ra else ea.__name__}')
 
     if not same_opts(opts, library_defaults()):
         raise Violation('C20.store', f'after {ea.__name__} and {eb.__name__} with default options get_options() is {opts}', 'store:pair')
